@@ -85,13 +85,20 @@ theorem env_sites :
 /-- `syntax.SplitBraces(word)` writes only objects it allocated itself and the one `Word` header
     it was given: every other `Word` header, every `BraceExp` and every backing array that existed
     — in particular the array behind `word.Parts`, spare capacity included — is unchanged, for
-    every growth policy of `append`.  When it returns false nothing at all is changed. -/
+    every growth policy of `append`.  When it returns false the given header is unchanged too. -/
 theorem splitbraces_frame (g : Grow) (h : Heap) (w : Nat) (h' : Heap) (b : Bool)
     (e : splitBraces g h w = some (h', b)) :
     (∀ i, i < h.words.length → i ≠ w → h'.words[i]? = h.words[i]?) ∧
-    Untouched h.braces h'.braces ∧ Untouched h.parr h'.parr ∧ (b = false → h' = h) := by
+    Untouched h.braces h'.braces ∧ Untouched h.parr h'.parr ∧ (b = false → Untouched h.words h'.words) := by
   have r := splitBraces_good g h w e
-  exact ⟨r.1.words, untouched_of_listFr r.1.braces, untouched_of_listFr r.1.parr, r.2⟩
+  refine ⟨r.1.words, untouched_of_listFr r.1.braces, untouched_of_listFr r.1.parr, ?_⟩
+  intro hb i hi
+  by_cases hiw : i = w
+  · subst hiw
+    rcases r.2 hb with h1 | h1
+    · exact h1
+    · omega
+  · exact r.1.words i hi hiw
 
 /-- `expand.FieldsSeq` copies the header first (`word := *word`), so for a word of the tree nothing
     that existed is written: the tree's `Word`, its `Parts` array and everything else is unchanged;
